@@ -1,5 +1,5 @@
 //@unit tracker
-//@props C13 C10
+//@props C13 C10 C14
 // Contracts on ChainTracker (vls-core/src/chain/tracker.rs): add_block / remove_block follow only
 // validated blocks and are atomic on refusal.
 use vstd::prelude::*;
@@ -70,25 +70,31 @@ pub open spec fn tracker_same<L: ChainListener>(a: ChainTracker<L>, b: ChainTrac
 }
 pub open spec fn take_front(s: Seq<Headers>, n: int) -> Seq<Headers> { if s.len() <= n { s } else { s.take(n) } }
 
+pub uninterp spec fn streamed_block_is(proof: TxoProof, hash: BlockHash) -> bool;
+pub uninterp spec fn listeners_told(hash: BlockHash, is_remove: bool) -> bool;
+
 impl<L: ChainListener> ChainTracker<L> {
 
     // ---- trusted here: listener notification (touches only `listeners`), streamed-block bookkeeping
+    // (`listeners_told` is an uninterpreted call marker: which block hash the monitors were told was added / removed)
     #[verifier::external_body]
     fn notify_listeners_remove(&mut self, txs: Option<&[Transaction]>, block_hash: BlockHash)
-        ensures final(self).headers == old(self).headers, final(self).tip == old(self).tip, final(self).height == old(self).height,
+        ensures listeners_told(block_hash, true), final(self).headers == old(self).headers, final(self).tip == old(self).tip, final(self).height == old(self).height,
             final(self).network == old(self).network, final(self).trusted_oracle_pubkeys == old(self).trusted_oracle_pubkeys,
             final(self).allow_deep_reorgs == old(self).allow_deep_reorgs,
     { unimplemented!() }
     #[verifier::external_body]
     fn notify_listeners_add(&mut self, txs: Option<&[Transaction]>, block_hash: BlockHash)
-        ensures final(self).headers == old(self).headers, final(self).tip == old(self).tip, final(self).height == old(self).height,
+        ensures listeners_told(block_hash, false), final(self).headers == old(self).headers, final(self).tip == old(self).tip, final(self).height == old(self).height,
             final(self).network == old(self).network, final(self).trusted_oracle_pubkeys == old(self).trusted_oracle_pubkeys,
             final(self).allow_deep_reorgs == old(self).allow_deep_reorgs,
     { unimplemented!() }
-    // maybe_finish_decoding_block only consumes the transient decode state
+    // maybe_finish_decoding_block only consumes the transient decode state; Ok means: if a block was streamed in chunks, it
+    // decoded completely and its hash is the expected one (`streamed_block_is`: uninterpreted marker of that check)
     #[verifier::external_body]
     fn maybe_finish_decoding_block(&mut self, proof: &TxoProof, expected_block_hash: &BlockHash) -> (r: Result<(), Error>)
         ensures tracker_same(*final(self), *old(self)), final(self).allow_deep_reorgs == old(self).allow_deep_reorgs,
+            r.is_ok() ==> streamed_block_is(*proof, *expected_block_hash),
     { unimplemented!() }
     #[verifier::external_body]
     fn vx_validator_validate_block(&self, proof: &TxoProof, height: u32, header: &BlockHeader, external: Option<&BlockHash>,
@@ -114,6 +120,9 @@ impl<L: ChainListener> ChainTracker<L> {
         r.is_ok() ==> block_follows(old(self).listeners, old(self).trusted_oracle_pubkeys, old(self).network, old(self).height,
             (if proof.proof is ExternalBlock { Some(hdr_hash(header)) } else { None }),
             old(self).tip, Headers(header, proof_filter_header(proof)), proof, false),              //[C13.add.validated]
+        // the block that was streamed in chunks (if any) and the block the monitors are told about are THIS block
+        r.is_ok() ==> streamed_block_is(proof, hdr_hash(header)),                                    //[C13.add.streamed-block-is-this-block]
+        r.is_ok() ==> listeners_told(hdr_hash(header), false),                                       //[C14.add.monitors-told-this-block]
         r.is_ok() ==> final(self).tip == Headers(header, proof_filter_header(proof))
             && final(self).height == old(self).height + 1
             && final(self).headers@ == seq![old(self).tip] + take_front(old(self).headers@, MAX_REORG_SIZE - 1),   //[C13.add.advance]
@@ -126,8 +135,12 @@ impl<L: ChainListener> ChainTracker<L> {
         // the tip retreats only to the remembered (or, in a permitted deep reorg, the supplied) previous header,
         // and only if the current tip validly follows it
         r.is_ok() ==> block_follows(old(self).listeners, old(self).trusted_oracle_pubkeys, old(self).network, (old(self).height - 1) as u32,
-            (if proof.proof is ExternalBlock { Some(hdr_hash(supplied_prev_headers.0)) } else { None }),
+            (if proof.proof is ExternalBlock { Some(hdr_hash(old(self).tip.0)) } else { None }),
             supplied_prev_headers, old(self).tip, proof, true),                                     //[C13.remove.validated]
+        // the block that was streamed in chunks (if any) and the block the monitors are told about are the block that is
+        // REMOVED, i.e. the current tip (not its predecessor)
+        r.is_ok() ==> streamed_block_is(proof, hdr_hash(old(self).tip.0)),                           //[C13.remove.streamed-block-is-removed-block]
+        r.is_ok() ==> listeners_told(hdr_hash(old(self).tip.0), true),                               //[C14.remove.monitors-told-removed-block]
         r.is_ok() && old(self).headers@.len() > 0 ==> supplied_prev_headers.0 == old(self).headers@[0].0
             && supplied_prev_headers.1 == old(self).headers@[0].1,                                   //[C13.remove.prev-is-remembered]
         r.is_ok() && old(self).headers@.len() == 0 ==> old(self).allow_deep_reorgs,                  //[C13.remove.deep-only-if-allowed]
